@@ -1917,3 +1917,41 @@ func ruleResultTruthfulAPI(e *Engine, r *Report) {
 		}
 	})
 }
+
+// ruleBootstrapGate (C07, C20): a replica is started only with settings that
+// agree with its bootstrap record: the record's Validate verdict gates
+// bootstrapShard, a fresh record is saved before the shard is reported
+// bootstrapped, and a joined / imported replica (record says Join) never
+// comes back with an initial member list.
+func ruleBootstrapGate(e *Engine, r *Report) {
+	n := checkValidatorGates(e, r, "VAL-bootstrap", []string{"(*raftpb.Bootstrap).Validate"}, nil)
+	r.floor("VAL-bootstrap", n, 1)
+	bs := r.need("(*dragonboat.NodeHost).bootstrapShard")
+	saveM := r.needMethod("raftio", "ILogDB", "SaveBootstrapInfo")
+	getM := r.needMethod("raftio", "ILogDB", "GetBootstrapInfo")
+	if bs == nil || saveM == nil || getM == nil {
+		return
+	}
+	// on the no-record edge: every success return is preceded by SaveBootstrapInfo
+	isSave := func(in ssa.Instruction) bool {
+		c, ok := in.(ssa.CallInstruction)
+		return ok && e.IsMethodCall(c, saveM)
+	}
+	isValidate := func(in ssa.Instruction) bool {
+		c, ok := in.(*ssa.Call)
+		v := e.Func("(*raftpb.Bootstrap).Validate")
+		return ok && v != nil && e.CallsTo(c, v)
+	}
+	res := e.findPath(bs, nil, func(in ssa.Instruction) bool { return e.isSuccessReturn(in) }, func(in ssa.Instruction) bool { return isSave(in) || isValidate(in) }, nil)
+	r.check(!res.Found, "VAL-bootstrap", "bootstrapShard succeeds only after saving a fresh record or validating the stored one", e.pos(bs.Pos()),
+		"no start without a bootstrap record that agrees with the request", "bootstrapShard can report success without having saved a bootstrap record or validated the stored one against the request: a replica can be restarted with a different initial membership / join flag than it was created with", res.Trace(e)...)
+	// Validate itself: a recorded Join with a non-empty member list is refused
+	if v := e.Func("(*raftpb.Bootstrap).Validate"); v != nil && len(v.Params) >= 2 {
+		join := r.needField("raftpb", "Bootstrap", "Join")
+		nodes := v.Params[1]
+		r.returnsOnlyUnder("VAL-bootstrap", "Bootstrap.Validate accepts", v, 0, true, nil,
+			reqAny("the record is not a join record, or no initial members were given",
+				reqBool("", fieldV(join), false),
+				reqCmp("", "<=", lenOfV(func(x ssa.Value) bool { return x == ssa.Value(nodes) }), intConstV(0))))
+	}
+}
